@@ -75,7 +75,7 @@ func runC03(c *Ctx) {
 	r.NotCov = []string{"clause-by-clause construction, written values, aliases, 'never rejected' and every other part of C03: relations between input text and tree values"}
 	r.Rule("ladder-order", "following the left-operand callee from parseExpression gives a chain of functions whose operator classes appear in the standard order OR, AND, comparison, ||, additive, multiplicative; operator classes of different levels are disjoint")
 	r.Rule("left-assoc", "the OR, AND, ||, additive and multiplicative levels construct their BinaryExpression inside a loop whose Left operand includes the previously built node")
-	r.Rule("operand-symmetry", "where a BinaryExpression is built from two parsed operands, the callee that parsed the right operand is the callee that parsed the left operand (or the function itself)")
+	r.Rule("operand-symmetry", "where a BinaryExpression is built from two parsed operands, the callee that parsed the right operand is the callee that parsed the left operand (not a looser level, not the function itself: that would fold a chain to the right)")
 	mk := p.Pkg("pkg/models")
 	if mk == nil || p.Pkg("pkg/sql/parser") == nil {
 		r.Fatal("anchor not found: pkg/models / pkg/sql/parser")
@@ -252,7 +252,7 @@ func runC03(c *Ctx) {
 		}
 		same := true
 		for _, x := range rp {
-			found := x == s.fn.Name()
+			found := false // (a right operand parsed by the function itself folds the chain to the right)
 			for _, l := range lp {
 				if l == x {
 					found = true
@@ -265,7 +265,13 @@ func runC03(c *Ctx) {
 		if same {
 			r.OK("operand-symmetry", key, p.Pos(s.pos), "both operands via "+strings.Join(lp, "/"))
 		} else {
-			r.Violate("operand-symmetry", key, p.Pos(s.pos), "left operand parsed by "+strings.Join(lp, "/")+" but right operand by "+strings.Join(rp, "/")+": the right side of this operator is parsed at a tighter level (e.g. `a = b + 1` is rejected or mis-grouped)")
+			why := "the right side of this operator is parsed at a different level than the left (e.g. `a = b + 1` is rejected or mis-grouped)"
+			for _, x := range rp {
+				if x == s.fn.Name() {
+					why = "the right operand is parsed by the level's own function, which consumes the rest of the chain: `a - b - c` groups as a - (b - c)"
+				}
+			}
+			r.Violate("operand-symmetry", key, p.Pos(s.pos), "left operand parsed by "+strings.Join(lp, "/")+" but right operand by "+strings.Join(rp, "/")+": "+why)
 		}
 	}
 	// unary operators: one precedence level for the operand, whatever the next token is
